@@ -608,6 +608,18 @@ class Evaluator:
         return Poly.atom(("cell", name, idx))
 
     def cond(self, env: Env, n: ast.expr) -> tuple:
+        if isinstance(n, ast.Compare) and len(n.ops) == 1 and isinstance(
+                n.ops[0], (ast.Is, ast.IsNot)):
+            # `x is None` / `x is not None`: an atomic condition on x
+            sides = [n.left, n.comparators[0]]
+            nones = [isinstance(x, ast.Constant) and x.value is None
+                     for x in sides]
+            if any(nones) and not all(nones):
+                other = self.expr(env, sides[0 if nones[1] else 1])
+                if isinstance(other, Poly):
+                    c = _eq(other, Poly.var("None$"))
+                    return c if isinstance(n.ops[0], ast.Is) else ("not", c)
+            raise Unsupported("identity comparison", n)
         if isinstance(n, ast.Compare):
             parts = []
             left = self.num(env, n.left)
